@@ -138,8 +138,17 @@ Definition ok_event (es : list event) (e : event) : Prop :=
   /\ forall c, In c (e_cuds e) ->
        match c with
        | ENew id _ => nextID (ws_of (scan_of es) (e_ws e)) <= id
-       | _ => get2 (recs_of es) (e_ws e) (cud_id c) <> None
+       | EUpd id _ a => exists r, get2 (recs_of es) (e_ws e) id = Some r /\ r_act r = a
+       | EDeact id => get2 (recs_of es) (e_ws e) id <> None
        end.
+
+Lemma ok_event_exists es e c :
+  ok_event es e -> In c (e_cuds e) -> cud_new c = false -> get2 (recs_of es) (e_ws e) (cud_id c) <> None.
+Proof.
+  intros (_ & _ & H) Hin Hn. specialize (H c Hin). destruct c; cbn in *; try discriminate.
+  - destruct H as (r & -> & _). discriminate.
+  - exact H.
+Qed.
 
 Inductive wf : list event -> Prop :=
 | wf_nil : wf []
@@ -159,7 +168,7 @@ Lemma ok_event_apply es e c :
 Proof.
   intros (_ & _ & H) Hin. specialize (H c Hin). destruct c; cbn in *.
   - eexists; reflexivity.
-  - destruct (get2 _ _ _); [eexists; reflexivity | congruence].
+  - destruct H as (r & -> & _). eexists; reflexivity.
   - destruct (get2 _ _ _); [eexists; reflexivity | congruence].
 Qed.
 
@@ -178,7 +187,7 @@ Proof.
       * apply find_cud_in in F. destruct F as [Hin <-].
         specialize (Hc c Hin). destruct c; cbn in *.
         -- eapply sync_ids_above; exact Hin.
-        -- eapply N.lt_le_trans; [apply IH; exact Hc | apply sync_ids_mono].
+        -- eapply N.lt_le_trans; [apply (IH (e_ws e) id); destruct Hc as (r & -> & _); discriminate | apply sync_ids_mono].
         -- eapply N.lt_le_trans; [apply IH; exact Hc | apply sync_ids_mono].
       * eapply N.lt_le_trans; [apply IH; exact Hg | apply sync_ids_mono].
     + destruct (N.eqb_spec (e_ws e) ws); [congruence|]. apply IH; exact Hg.
